@@ -29,7 +29,7 @@ pub struct CountRun {
     pub diverged: Option<String>,
 }
 
-fn read_trace(path: &std::path::Path) -> Vec<Event> {
+pub fn read_trace(path: &std::path::Path) -> Vec<Event> {
     let mut v = Vec::new();
     if let Ok(s) = std::fs::read_to_string(path) {
         for l in s.lines() {
@@ -641,6 +641,8 @@ pub fn c07(ctx: &Ctx) {
         };
         run_search(ctx, &s);
     }
+    // the same with concurrent producers (H2 schedule) instead of a sequential workload
+    super::crashconc::search(ctx, if q { 64 } else { 2_400 }, if q { 6 } else { 16 });
 }
 
 // ------------------------------------------------------------------------------------------ C08
